@@ -1,4 +1,4 @@
 SPECIFICATION TraceSpec
-INVARIANTS C48_OwnerOnly C48_AllOrNothing C48_Atomic C48_ValidAfter C48_NoSilentChange
+INVARIANTS C48_OwnerOnly C48_AllOrNothing C48_Atomic C48_ValidAfter C48_SameOnEveryNode C48_NoSilentChange
 POSTCONDITION Accepted
 CHECK_DEADLOCK FALSE
